@@ -1,2 +1,24 @@
-import SiaModel
-def main : IO Unit := IO.println "driver"
+import SiaModel.Driver.Cur
+/-!
+  Model driver: one op per input line, one canonical answer per output line.
+  Core-only (no Mathlib) so that it links as a native executable.
+-/
+open Sia.Driver
+
+def dispatch (line : String) : String :=
+  match (line.splitOn " ").filter (· ≠ "") with
+  | "cur" :: rest => curOp rest
+  | _ => "bad-op"
+
+partial def loop (hin hout : IO.FS.Stream) : IO Unit := do
+  let line ← hin.getLine
+  if line.isEmpty then return ()
+  let l := line.trimAscii.toString
+  hout.putStrLn (dispatch l)
+  loop hin hout
+
+def main : IO Unit := do
+  let hin ← IO.getStdin
+  let hout ← IO.getStdout
+  loop hin hout
+  hout.flush
